@@ -80,6 +80,11 @@ fn base_tables() -> Vec<SafetyDesc> {
     ]
 }
 
+static THOROUGH: std::sync::atomic::AtomicBool = std::sync::atomic::AtomicBool::new(false);
+fn thorough_tier() -> bool {
+    THOROUGH.load(std::sync::atomic::Ordering::Relaxed)
+}
+
 thread_local! {
     static DECOY: rs_opw_kinematics::kinematics_with_shape::KinematicsWithShape = {
         let mut cell = CellDesc::standard();
@@ -272,7 +277,8 @@ pub fn eval_prepared(cfg: &Config, prep: &mut Prepared, body_table: &SafetyDesc,
         }
         // a single colliding pair in first-collision mode is the sharpest case for the parallel search: exactly one task can
         // produce the result, wherever it sits in the task list; those cases run in pools of every size 1..16
-        let single_hit = mode == 0 && hit.len() == 1 && boundary.is_empty();
+        // (on a third of such cases, chosen by the bits of the joint vector, and on all of them in the thorough tier)
+        let single_hit = mode == 0 && hit.len() == 1 && boundary.is_empty() && (thorough_tier() || (hq ^ (hq >> 17)) % 3 == 0);
         if (pools || single_hit) && mode != 2 {
             // schedules: in first-collision mode *which* hit is returned may differ (each must be a hit); the all-collisions
             // list and the boolean verdict must be identical for every pool size and every repetition
@@ -469,6 +475,7 @@ fn rx160_phase(rep: &mut Report, thorough: bool) {
 
 pub fn run(ctx: &Ctx) -> Report {
     let thorough = !ctx.quick();
+    THOROUGH.store(thorough, std::sync::atomic::Ordering::Relaxed);
     let qs = postures(thorough);
     let presence = [(true, true, false), (true, false, false), (false, true, false), (false, false, false), (true, true, true)];
     let sizes = [presence.len(), N_LAYOUTS, 2, qs.len()];
@@ -479,8 +486,8 @@ pub fn run(ctx: &Ctx) -> Report {
         par::decode(idx, &sizes, &mut ix);
         let (tool, base, moved) = presence[ix[0]];
         let cfg = Config { tool, base, moved_base: moved, layout: ix[1], subdiv_variant: ix[2], q: qs[ix[3]] };
-        // quick tier: every posture for the richest presence variant, every 3rd posture otherwise
-        if !thorough && ix[0] != 0 && (ix[3] + ix[1]) % 3 != 0 {
+        // quick tier: every posture for the richest presence variant, every 4th posture otherwise
+        if !thorough && ix[0] != 0 && (ix[3] + ix[1]) % 4 != 0 {
             return;
         }
         r.states += 1;
@@ -505,7 +512,7 @@ pub fn run(ctx: &Ctx) -> Report {
             }
         }
         // NEVER_COLLIDES on each candidate pair, both key orders, on top of the 5 cm table; and near() with differing tables
-        if ix[3] % 4 == 0 || thorough {
+        if ix[3] % 6 == 0 || thorough {
             let dist = prep.dist.clone();
             let t2 = &tables[2];
             let (hit, _) = pairs_ref(&dist, t2);
